@@ -241,7 +241,12 @@ def crafted_pkcs1(key, h, digest, rng):
     add('ps-byte-00', b'\x00\x01' + b'\xff' * i + b'\x00' + b'\xff' * (ps - i - 1) + b'\x00' + T)
     add('separator-ff', b'\x00\x01' + b'\xff' * ps + b'\xff' + T)
     add('separator-01', b'\x00\x01' + b'\xff' * ps + b'\x01' + T)
-    add('hash-bit-flipped', b'\x00\x01' + b'\xff' * ps + b'\x00' + T[:-1] + bytes([T[-1] ^ 1]))
+    add('hash-last-bit-flipped', b'\x00\x01' + b'\xff' * ps + b'\x00' + T[:-1] + bytes([T[-1] ^ 1]))
+    hp = len(T) - len(digest)
+    add('hash-first-bit-flipped', b'\x00\x01' + b'\xff' * ps + b'\x00' + T[:hp] + bytes([T[hp] ^ 0x80]) + T[hp + 1:])
+    j = hp + rng.randrange(len(digest))
+    add('hash-random-bit-flipped', b'\x00\x01' + b'\xff' * ps + b'\x00' + T[:j] + bytes([T[j] ^ (1 << rng.randrange(8))]) + T[j + 1:])
+    add('prefix-bit-flipped', b'\x00\x01' + b'\xff' * ps + b'\x00' + T[:hp - 1] + bytes([T[hp - 1] ^ 1]) + T[hp:])
     add('extra-leading-zero-sig', b'\x00\x01' + b'\xff' * ps + b'\x00' + T, sig_fix=lambda s: b'\x00' + s)
     add('leading-zero-stripped-sig', b'\x00\x01' + b'\xff' * ps + b'\x00' + T,
         sig_fix=lambda s: s.lstrip(b'\x00') if s[:1] == b'\x00' else s[1:])
@@ -270,8 +275,9 @@ def pss_em(key, mhash, h, salt, **dev):
     emlen = (embits + 7) // 8
     hl = HLEN[h]
     H = hashlib.new(h, b'\x00' * 8 + mhash + salt).digest()
-    if dev.get('bad_h'):
-        H = bytes([H[0] ^ 0x40]) + H[1:]
+    if dev.get('bad_h') is not None:
+        i = dev['bad_h'] % len(H)
+        H = H[:i] + bytes([H[i] ^ dev.get('bad_h_bit', 0x40)]) + H[i + 1:]
     ps = b'\x00' * (emlen - len(salt) - hl - 2)
     if dev.get('ps_nonzero') and ps:
         ps = ps[:-1] + b'\x04'
@@ -306,7 +312,9 @@ def crafted_pss(key, h, mhash, slen, rng):
     add('ps-nonzero', False, ps_nonzero=True)
     add('separator-02', False, sep=2)
     add('separator-00', False, sep=0)
-    add('h-corrupted', False, bad_h=True)
+    add('h-corrupted-first-byte', False, bad_h=0)
+    add('h-corrupted-last-byte', False, bad_h=-1, bad_h_bit=0x01)
+    add('h-corrupted-random-byte', False, bad_h=rng.randrange(HLEN[h]), bad_h_bit=1 << rng.randrange(8))
     add('salt-longer-than-expected', False, verify_slen=slen, s=salt + b'\x07')
     if slen:
         add('salt-shorter-than-expected', False, verify_slen=slen, s=salt[:-1])
